@@ -842,6 +842,66 @@ fn handshakes(cx: &mut Ctx) {
 		}
 		cx.out.line("codec hs self", &rbs);
 	}
+	// 2b. self connection over a socket whose peer IP differs from its local IP (multi-homed host, wildcard
+	//     listener, NAT hairpin): the listener is bound to 0.0.0.0, the node dials 127.0.0.2 / 127.0.0.3 / 127.1.2.3
+	//     (all of 127/8 is routed to lo, the source stays 127.0.0.1): the nonce is the node's own whatever the
+	//     addresses are. Control: ANOTHER Handshake instance behind the same address pair is accepted.
+	for (ti, target) in ["127.0.0.2", "127.0.0.3", "127.1.2.3", "127.0.0.1", "127.255.255.254"].iter().enumerate() {
+		for same_node in [true, false] {
+			let l = match TcpListener::bind("0.0.0.0:0") {
+				Ok(l) => l,
+				Err(e) => {
+					cx.out.raw(&format!("#STAT self connection over differing addresses: cannot bind 0.0.0.0 ({})", e));
+					continue;
+				}
+			};
+			let port = l.local_addr().unwrap().port();
+			let mut a = match TcpStream::connect((*target, port)) {
+				Ok(a) => a,
+				Err(e) => {
+					cx.out.raw(&format!("#STAT self connection over differing addresses: {} not reachable here ({})", target, e));
+					continue;
+				}
+			};
+			let (mut b, _) = l.accept().unwrap();
+			let addrs = format!(
+				"dialled {}:{}; accepted socket local {} peer {}; dialling socket local {} peer {}",
+				target, port,
+				b.local_addr().map(|x| x.to_string()).unwrap_or_default(), b.peer_addr().map(|x| x.to_string()).unwrap_or_default(),
+				a.local_addr().map(|x| x.to_string()).unwrap_or_default(), a.peer_addr().map(|x| x.to_string()).unwrap_or_default()
+			);
+			let differs = b.local_addr().map(|x| x.ip()).ok() != b.peer_addr().map(|x| x.ip()).ok();
+			let hs = Arc::new(Handshake::new(g1, P2PConfig::default()));
+			let hs_acc = if same_node { hs.clone() } else { Arc::new(Handshake::new(g1, P2PConfig::default())) };
+			// the address the node advertises as its own: its listening port on yet another of its addresses
+			let advertised = PeerAddr(format!("{}:{}", ["127.0.0.1", "10.1.2.3", "192.168.7.7"][ti % 3], port).parse().unwrap());
+			let t = std::thread::spawn(move || {
+				global::set_local_chain_type(ChainTypes::AutomatedTesting);
+				hs_acc.accept(caps, Difficulty::from_num(5), &mut b).map(|i| i.version.value())
+			});
+			let ra = hs.initiate(caps, Difficulty::from_num(3), advertised, &mut a).map(|i| i.version.value());
+			let rb = t.join().unwrap();
+			let rbs = match &rb {
+				Ok(v) => format!("ok {}", v),
+				Err(e) => format!("err {}", err_name(e)),
+			};
+			cx.stat(&format!("self connections over a socket with {} local and peer IP ({})", if differs { "DIFFERENT" } else { "equal" }, if same_node { "same Handshake on both ends" } else { "control: another node accepts" }));
+			if same_node {
+				if !matches!(rb, Err(grin_p2p::Error::PeerWithSelf)) || ra.is_ok() {
+					cx.fails += 1;
+					cx.out.raw(&format!("#ORACLE-FAIL C19 connection to itself over a socket whose peer IP differs from its local IP not refused: accept {} initiate ok={} ({})", rbs, ra.is_ok(), addrs));
+				}
+				cx.out.line("codec hs self", &rbs);
+			} else {
+				if !matches!(rb, Ok(1000)) || !matches!(ra, Ok(1000)) {
+					cx.fails += 1;
+					cx.out.raw(&format!("#ORACLE-FAIL C19 another node behind the same address pair was not accepted: accept {} initiate {:?} ({})", rbs, ra.as_ref().map_err(|e| err_name(e)), addrs));
+				}
+				cx.out.line("codec hs other", &rbs);
+			}
+			cx.out.raw(&format!("#STAT self connection over differing addresses ({}): {} -> accept {}", if same_node { "own nonce" } else { "another node" }, addrs, rbs));
+		}
+	}
 	// 3. a scripted peer with every version against the real accept / initiate
 	let versions: Vec<u32> = vec![0, 1, 2, 3, 999, 1000, 1001, u32::MAX];
 	for &pv in &versions {
